@@ -3,7 +3,7 @@
   command receives from the KEY=VALUE options (model-param, scorer-param, ...) is a function of the command line.
   Theorems about Batchie.Model.ArgParse (model of src/batchie/cli/argument_parsing.py KVAppendAction /
   str_to_bool), tied by harness/c18.py stream `kvargs` (driver ops args.kv / args.bool).
-  NOT yet proved: "the last occurrence of a key wins" (`lastValue`), only executed by the tie.
+  `C18Args_last_wins`: for every accepted command line the value of a key is the value of its LAST occurrence.
 -/
 import Batchie.Model.ArgParse
 
@@ -125,5 +125,93 @@ theorem C18Args_refusal (args : List (List Char)) :
     cases h : kvParse a with
     | none => simp [bind, Option.bind]
     | some p => simpa [bind, Option.bind] using ih _
+
+
+theorem lookup_map_set (d : List (List Char × List Char)) (k v k' : List Char) :
+    (d.map (fun p => if p.1 == k then (k, v) else p)).lookup k' =
+      if k' == k then (if d.any (fun p => p.1 == k) then some v else none) else d.lookup k' := by
+  induction d with
+  | nil => simp
+  | cons p d ih =>
+    obtain ⟨a, b⟩ := p
+    simp only [List.map_cons, List.any_cons]
+    simp only [beq_iff_eq] at ih
+    by_cases h : a = k
+    · subst h
+      by_cases h' : k' = a
+      · subst h'; simp [List.lookup_cons]
+      · have : (k' == a) = false := by simpa using h'
+        simp [List.lookup_cons, this, ih, h']
+    · have ha : (a == k) = false := by simpa using h
+      by_cases h' : k' = k
+      · subst h'
+        have : (k' == a) = false := by simpa using (Ne.symm h)
+        simp only [ha, Bool.false_or]; simp [List.lookup_cons, this, ih, h]
+      · have hk : (k' == k) = false := by simpa using h'
+        simp [List.lookup_cons, ha, ih, hk, h, h']
+
+theorem lookup_none_of_not_any (d : List (List Char × List Char)) (k : List Char)
+    (h : d.any (fun p => p.1 == k) = false) : d.lookup k = none := by
+  induction d with
+  | nil => rfl
+  | cons p d ih =>
+    simp only [List.any_cons, Bool.or_eq_false_iff] at h
+    have hne : ¬ k = p.1 := by
+      have := h.1; simp at this; exact fun e => this e.symm
+    have : (k == p.1) = false := by simpa using hne
+    obtain ⟨a, b⟩ := p
+    rw [List.lookup_cons, this]; exact ih h.2
+
+/-- `d[k] = v` changes the value of `k` and of no other key -/
+theorem C18Args_dictSet_lookup (d : List (List Char × List Char)) (k v k' : List Char) :
+    (dictSet d k v).lookup k' = if k' == k then some v else d.lookup k' := by
+  unfold dictSet
+  split
+  · rename_i h; rw [lookup_map_set, h]; simp
+  · rename_i h
+    have h : d.any (fun p => p.1 == k) = false := by
+      cases hh : d.any (fun p => p.1 == k) with
+      | false => rfl
+      | true => exact absurd hh h
+    rw [List.lookup_append]
+    by_cases hk : k' = k
+    · subst hk; simp [lookup_none_of_not_any d k' h, List.lookup_cons]
+    · have : (k' == k) = false := by simpa using hk
+      simp [List.lookup_cons, this]
+
+theorem last_wins_gen (args : List (List Char)) (d0 d : List (List Char × List Char)) (k : List Char)
+    (h : args.foldlM kvStep d0 = some d) :
+    d.lookup k = (lastValue k args).or (d0.lookup k) := by
+  induction args generalizing d0 with
+  | nil =>
+    simp only [List.foldlM_nil, pure, Option.some.injEq] at h
+    subst h; simp [lastValue]
+  | cons a as ih =>
+    rw [List.foldlM_cons] at h
+    cases hp : kvParse a with
+    | none => simp [kvStep, hp, bind, Option.bind] at h
+    | some p =>
+      obtain ⟨k1, v1⟩ := p
+      have hs : kvStep d0 a = some (dictSet d0 k1 v1) := by simp [kvStep, hp]
+      rw [hs] at h
+      simp only [bind, Option.bind] at h
+      rw [ih _ h, C18Args_dictSet_lookup]
+      unfold lastValue
+      rw [List.reverse_cons, List.findSome?_append]
+      simp only [List.findSome?_cons, List.findSome?_nil, hp]
+      by_cases hk : k = k1
+      · subst hk; simp
+      · have h1 : (k == k1) = false := by simpa using hk
+        have h2 : (k1 == k) = false := by simpa using (Ne.symm hk)
+        simp [h1, h2]
+
+/-- for every accepted command line: the value of a key is the value of its LAST occurrence; a key that does not occur is absent -/
+theorem C18Args_last_wins (args : List (List Char)) (d : List (List Char × List Char)) (k : List Char)
+    (h : kvAppendAll args = some d) : d.lookup k = lastValue k args := by
+  have := last_wins_gen args [] d k h
+  simpa using this
+
+example : kvAppendAll ["a=1".toList, "b=2".toList, "a=3".toList] =
+    some [("a".toList, "3".toList), ("b".toList, "2".toList)] := by decide
 
 end Batchie.Props.C18Args
